@@ -366,7 +366,7 @@ fn class_of(nf: usize) -> &'static str {
 // planar disks: isometry and no folds
 
 fn run_planar(c: &mut Ctx) {
-    let max_faces = if c.thorough && c.rng.chance(0.05) { 5000 } else { 600 };
+    let max_faces = if c.tiny { 30 } else if c.thorough && c.rng.chance(0.05) { 5000 } else { 600 };
     let base = make_disk(c, max_faces, false);
     let reversed = c.rng.chance(0.25);
     let (mut d, _) = relabel(c, &base);
@@ -471,7 +471,7 @@ fn same_layout(c: &mut Ctx, a: &[Point2], b: &[Point2], f: &[[u32; 3]]) -> (f64,
 
 fn run_invariance(c: &mut Ctx) {
     let curved = c.rng.chance(0.7);
-    let max_faces = if c.thorough && c.rng.chance(0.05) { 3000 } else { 400 };
+    let max_faces = if c.tiny { 30 } else if c.thorough && c.rng.chance(0.05) { 3000 } else { 400 };
     let base0 = make_disk(c, max_faces, curved);
     let base = posed(c, &base0);
     let nf = base.f.len();
@@ -643,7 +643,7 @@ fn run_rejection(c: &mut Ctx) {
 
 fn run_uv(c: &mut Ctx) {
     let curved = c.rng.chance(0.4);
-    let base0 = make_disk(c, 300, curved);
+    let base0 = make_disk(c, if c.tiny { 24 } else { 300 }, curved);
     let (base0, _) = if c.rng.bool() { relabel(c, &base0) } else { (base0.clone(), vec![]) };
     // ordinary length units only: the UV lookups need face normals, which the dependency does not
     // compute for triangles whose doubled area is below 2.2e-16 (edges of about 1e-8)
